@@ -97,6 +97,9 @@ def stage(ck, thorough):
             flush()
     flush()
     ck.count("universe_calls_replayed_into_code", k)
+    if not step_recs:
+        ck.note("step-level binding skipped: the loop heads of parse_params were not found (restructured code)")
+        return merged, flagged
     sres = tlc.judge("Trace_WrapSteps", "Trace_WrapSteps.cfg", step_recs, workers=16)
     nsnap = sum(len(r["steps"]) for r in step_recs)
     if sres.distinct != nsnap:
